@@ -129,9 +129,11 @@ def work_deep(task):
     sieve = Sieve(PROP)
     stats = {'assemblies': 0, 'programs': 0, 'splits': 0, 'with_collision': 0}
     wd = scratch()
-    for P, L, via_rep in itertools.product(POOL_DEEP, POOL_DEEP, (False, True)):
-        body = (lambda k: f'rep(1, i) c{k + 1} {P}' if via_rep else f'c{k + 1} {P}')
-        text = ''.join(f'def c{k} {P} {{\n    {body(k)}\n}}\n' for k in range(depth)) + f'def c{depth} {P} {{\n    ;{P}\n    {P};\n}}\n{L}:\nc0 {L}\nc0 {L}+2*w\n'
+    for P, L, via_rep in itertools.product(POOL_DEEP, POOL_DEEP, (False, True, 'zero-rep-at-the-bottom')):
+        body = (lambda k: f'rep(1, i) c{k + 1} {P}' if via_rep is True else f'c{k + 1} {P}')
+        # third form: the innermost macro also holds a rep of count 0 (of the chain itself): it expands to nothing, so it is no nesting level
+        bottom = f'    rep(0, i) c0 {P}+i\n    rep({P}-{P}, i) c0 i\n' if via_rep == 'zero-rep-at-the-bottom' else ''
+        text = ''.join(f'def c{k} {P} {{\n    {body(k)}\n}}\n' for k in range(depth)) + f'def c{depth} {P} {{\n    ;{P}\n{bottom}    {P};\n}}\n{L}:\nc0 {L}\nc0 {L}+2*w\n'
         ref_text = f'{L}:\n;{L}\n{L};\n;{L}+2*w\n{L}+2*w;\n'
         ref = assemble_image(ref_text, w, wd, 'ref')
         got = assemble_image(text, w, wd, 'orig')
